@@ -36,6 +36,8 @@ class CFG:
                                                 RAISE: set()}
         self.stmt: Dict[object, ast.stmt] = {}
         self.keys: Dict[int, List[object]] = {}
+        # exceptional successors (statement did not complete)
+        self.exc: Dict[object, Set[object]] = {}
         first = self._seq(fnode.body, EXIT, _Ctx())
         self.succ[ENTRY].add(first)
 
@@ -103,10 +105,10 @@ class CFG:
                 for key in self.keys.get(id(bs), []):
                     if key[1] == bctx.tag:
                         for h in h_entries:
-                            self.succ[key].add(h)
+                            self.exc.setdefault(key, set()).add(h)
                         if not s.handlers and s.finalbody:
                             for e in octx.exc:
-                                self.succ[key].add(e)
+                                self.exc.setdefault(key, set()).add(e)
         elif isinstance(s, ast.Match):
             wild = False
             for c in s.cases:
@@ -160,6 +162,7 @@ class CFG:
             if n != ENTRY and blocked(n):
                 continue
             todo.extend(self.succ.get(n, ()))
+            todo.extend(self.exc.get(n, ()))
         return seen
 
     def dominated_by(self, target: ast.stmt, pred) -> bool:
